@@ -24,6 +24,8 @@ type splitter struct {
 	carryRequired bool
 	ulimitPartial bool // refine one key of a soft/hard pair in a later part (see the known finding)
 	emptyLists    bool // parts may mention a sequence attribute with an empty list
+	// the parts are loaded without the step that fills in default values: nothing is left to it
+	explicitDefaults bool
 }
 
 func (s *splitter) coin(label string, num, den int) bool {
@@ -732,7 +734,7 @@ func (s *splitter) respell(path string, v any) any {
 		if (gp == "services.*.dns" || gp == "services.*.dns_search" || gp == "services.*.tmpfs") && len(x) == 1 && s.coin("single", 1, 2) {
 			return x[0]
 		}
-		if gp == "services.*.ports" && s.coin("portdefaults", 1, 2) {
+		if gp == "services.*.ports" && !s.explicitDefaults && s.coin("portdefaults", 1, 2) {
 			// the long syntax may leave the defaults out: they are filled in after the merge, and the
 			// entry is still the same port for the "one entry per key" rule
 			out := make([]any, len(x))
